@@ -233,6 +233,9 @@ impl Debugger {
                 }
 
                 Status::Finish => {
+                    // Decode at the current PC: a command given during this pause (`reset`, `goto`,
+                    // `move`) may have changed the PC or the word under it
+                    let instr = SignificantInstr::try_from(state.mem(state.pc())).ok();
                     if instr == Some(SignificantInstr::Return) {
                         dprintln!(
                             Alternate,
